@@ -30,6 +30,10 @@ def run(ctx):
     ctx.each(optalg.required_total, ctx, repo, "R14h")
     ctx.each(optalg.evaluation_pipeline, ctx, repo, "R14i")
     ctx.each(r14j, ctx, repo)
+    from . import c15
+    from .c08 import engines as _eng
+
+    ctx.each(c15.r15f, ctx, repo, _eng(repo)[2])  # totals and bounds are derived from the instructions given to this call, not from values remembered on the problem object
 
 
 def _derives_from(fi, name, param, depth=0):
